@@ -57,6 +57,9 @@ func concParam(p string, quoted bool) string {
 		q = ""
 	}
 	if v, ok := strings.CutPrefix(p, "ech="); ok {
+		if v == "C1x" { // a damaged stored value: the base64 of C1 followed by a stray character (not the base64 of any list)
+			return "ech=" + q + base64.StdEncoding.EncodeToString(pubCfg["C1"]) + "C" + q
+		}
 		return "ech=" + q + base64.StdEncoding.EncodeToString(pubCfg[v]) + q
 	}
 	k, v, ok := strings.Cut(p, "=")
@@ -72,6 +75,9 @@ func absParam(p string) string {
 	}
 	v = strings.Trim(v, `"`)
 	if k == "ech" {
+		if v == base64.StdEncoding.EncodeToString(pubCfg["C1"])+"C" {
+			return "ech=C1x"
+		}
 		for name, b := range pubCfg {
 			if base64.StdEncoding.EncodeToString(b) == v {
 				return "ech=" + name
@@ -91,14 +97,15 @@ type fakeRec struct {
 }
 
 type fakeCF struct {
-	mu       sync.Mutex
-	recs     []*fakeRec
-	patches  []string
-	nList    int
-	nPatch   int
-	fail     pubFail
-	softFail bool
-	srv      *httptest.Server
+	mu        sync.Mutex
+	recs      []*fakeRec
+	patches   []string
+	nList     int
+	nPatch    int
+	fail      pubFail
+	softFail  bool
+	omitEmpty bool
+	srv       *httptest.Server
 }
 
 func recName(n string) string { return n + ".z1.example" }
@@ -168,7 +175,11 @@ func (f *fakeCF) handle(w http.ResponseWriter, req *http.Request) {
 		var res []map[string]any
 		for i := (page - 1) * per; i < len(f.recs) && i < page*per; i++ {
 			r := f.recs[i]
-			res = append(res, map[string]any{"id": r.ID, "name": r.Name, "type": "HTTPS", "data": map[string]any{"priority": r.Prio, "target": r.Tgt, "value": r.Value}})
+			data := map[string]any{"priority": r.Prio, "target": r.Tgt, "value": r.Value}
+			if r.Value == "" && f.omitEmpty { // the API leaves out members that are empty
+				delete(data, "value")
+			}
+			res = append(res, map[string]any{"id": r.ID, "name": r.Name, "type": "HTTPS", "data": data})
 		}
 		// same semantics as the repository's own fake: count = number of matching records
 		json.NewEncoder(w).Encode(map[string]any{"success": true, "errors": []any{}, "result": res,
@@ -214,6 +225,7 @@ func replayPubCase(c *pubCase, idx int) (diff string) {
 	f := newFakeCF(c.Init, idx%3 != 1) // every third zone stores unquoted values
 	defer f.srv.Close()
 	f.softFail = (idx/3)%2 == 1
+	f.omitEmpty = idx%2 == 0
 	u, _ := url.Parse(f.srv.URL)
 	u.Path = "/client/v4/zones"
 	cf := publish.NewCloudflarePublisher("token")
